@@ -26,6 +26,36 @@ CHECKS["C04"] = dict(
          "Outside: n beyond the bound, the polars slice that materialises pages, heights as a function of text.",
     design="4/C04", technique=TECH_A)
 
+CHECKS["C02"] = dict(
+    text="Row conservation decomposed into the kernels the property is anchored in, each executed symbolically on the real "
+         "code: page assignment (unbounded heights) yields contiguous ordered non-empty ranges; re-slicing by cumulative "
+         "heights (unbounded page sizes) covers [0,total) once; segment rendering between group boundaries (symbolic group "
+         "values incl. dividers) emits every page row once in order with its page-relative offset; boundary detection; "
+         "column removal; null/str display; and the section glue that hands the strategy the original frame and the removed "
+         "column indices.",
+    note="Trusted: z3/CrossHair; FakeFrame/MetaFrame standing in for polars frames (operations they do not model make the "
+         "obligation inconclusive, never violated); TextContent.model_construct for pydantic. Outside: the polars [min,max] "
+         "slice inside paginate(), multi-section concatenation, shapes beyond the bounds.",
+    design="4/C02", technique=TECH_A)
+CHECKS["C03"] = dict(
+    text="Budget decided on the real kernels: _assign_pages with unbounded symbolic heights/nrow/reserved/continuation rows "
+         "keeps every multi-row page within max(1,nrow-reserved); calculate_additional_rows_per_page vs the rows render() "
+         "actually repeats, on the same symbolic document configuration; group headings incl. continuation headings on the "
+         "chained metadata->assign->headers->render pipeline with symbolic keys; per-cell font/size of the line estimate; "
+         "section glue.",
+    note="Trusted: as C02 plus role-token services in the render skeleton and a constant width stub. One listed known finding "
+         "(auto-generated column header not reserved). Outside: FreeType widths, footnote wrapping, nested page_by levels in "
+         "the chained harness.",
+    design="4/C03", technique=TECH_A)
+CHECKS["C05"] = dict(
+    text="Group headings decided on the real functions with symbolic group values: _get_group_headers (first row, dividers "
+         "dropped, order kept), the hierarchical loop of _render_body against a reference sequence computed from the "
+         "statement, render() step 7, the chained pipeline (every data row under its own group's heading on its page, no "
+         "stranded heading, unbounded nrow), subline heading text and one subline group per page.",
+    note="Trusted: as C02/C03. Outside: spanning-row formatting, three nested levels in the chained harness, rows beyond the "
+         "bounds.",
+    design="4/C05", technique=TECH_A)
+
 NOT_APPLICABLE = {
     "C18": "file-system crash-point property: effects of pathlib/tempfile/shutil and an external converter are opaque to "
            "(and blocked under) symbolic execution; a model of the file system would verify the model, not the effects",
